@@ -52,7 +52,10 @@ func makeNamedType(name string, underlying types.Type) *types.Named {
 // reflectPanic is the program-level panic the real reflect package raises
 // when a Value method is applied to the wrong kind.
 func reflectPanic(fr *frame, method string, v value) targetPanic {
-	return targetPanic{iface{fr.i.runtimeErrorString, fmt.Sprintf("reflect: call of reflect.Value.%s on %T Value", method, v)}}
+	// (the real package panics with a *reflect.ValueError, which is an error
+	// but not a runtime.Error; the closest the interpreter can build is a
+	// plain string value)
+	return targetPanic{iface{types.Typ[types.String], fmt.Sprintf("reflect: call of reflect.Value.%s on %T Value", method, v)}}
 }
 
 func makeReflectValue(t types.Type, v value) value {
